@@ -45,7 +45,11 @@ def block_seeded():
                 how = "proof / model build no longer checks"
                 rep = str(v)[:110]
         except Exception:
-            pass
+            mk = re.search(r'"kind": "(\w+)"', ex)
+            mw = re.search(r'"what": "([^"]*)', ex)
+            if mk:
+                how = "property decider (failing input replayed)" if mk.group(1) == "property" else "model / implementation correspondence"
+                rep = (mw.group(1) if mw else ex)[:110]
         if not m.get("detected_by_check"):
             how = "MISSED"
         out.append("| %s | %s | %s | %s |" % (n, (m.get("summary") or "")[:170].replace("|", "\\|").replace("\n", " "), how, rep.replace("|", "\\|").replace("\n", " ")))
